@@ -31,8 +31,12 @@ CLAIMED = {
             'Proved for every interleaving: the documented NO_DELAYED_FREE invariant, a pushed block stays pending until the flag is reset, no step loses or invents a block, from any quiescent reachable state the owner alone can drain so that every non-live block is on its free/local-free list (all freed => page empty), and an in-flight remote free can always complete. Tie as C02 (validated traces); oracles: blocks held by the program == page->used after a forced collect, no live block and no abandoned segment left after everything was freed.',
             TB + 'sequentially consistent atomics; "bounded memory however long it runs" is only covered by the end-of-run oracles (no fairness assumption is modelled) — stated as partial in DESIGN.md.',
             'DESIGN.md §4 C08'),
+    'C20': ('Lean 4 theorems over executable models of the option parser and the bounded writers (in-bounds invariant for every format, argument list and buffer size), tied to the real static functions by differential correspondence under AddressSanitizer',
+            'Proved: the option-value parser is total and ends either INITIALIZED or DEFAULTED with the default untouched; an accepted value is empty, a whole boolean word or ws* [+-]? digits+ [K|M|G|T]? [iB|B]? (malformed => default kept); decimal values saturate at LONG_MAX/LONG_MIN; sizes give the documented KiB value saturating at MI_MAX_ALLOC_SIZE/KiB also when the multiplication or the digits overflow; only 64 bytes are parsed; _mi_vsnprintf never stores outside its buffer, terminates inside it and returns a length < bufsize for every format, argument list and buffer size; strlcpy/strlcat/mi_heap_buf_print (caller buffer of any size)/mi_out_buf store in bounds. Tie: ~67k results of the real mi_option_init, _mi_snprintf (every internal format from the AST x buffer sizes 0..40,64,100,257 x argument variants), strlcpy/strlcat, mi_heap_buf_print, mi_out_buf are recomputed by the models every run; exact-size ASan buffers, mi_stats_get_json for all sizes, mi_stats_print/mi_options_print and an independent grammar oracle search violations.',
+            'Lean 4.33 kernel (+ leanchecker in the thorough tier); axioms propext, Classical.choice, Quot.sound only; hand-written models (not generated): their agreement with the code is sampled by the correspondence run; libc strtol/getenv/va_arg semantics; width fields of more than 18 digits are outside the claim (proved absent from every internal format; the C code overflows pointer arithmetic there); a 64-byte well-formed prefix of a longer environment value is accepted (values are truncated to 64 bytes before parsing).',
+            'DESIGN.md §4 C20'),
 }
-NOT_YET = 'check not built yet (work in progress in this session; see DESIGN.md §12 implementation order)'
+NOT_YET = """'check not built yet (work in progress in this session; see DESIGN.md §12 implementation order)'
 def main():
     checks = []
     for pid in PROPS:
